@@ -47,6 +47,9 @@ type proxyCfg struct {
 	Greet  bool      `json:"greet"`
 	Conns  []connCfg `json:"conns"`
 	Serial bool      `json:"serial"` // connections one after another instead of all at once
+	// StrictRate: limited proxy driven by one unidirectional stream at a time, so the limiter never has two
+	// concurrent callers and the rate bound is judged without the tolerance for the rate library's over-issue
+	StrictRate bool `json:"strict_rate,omitempty"`
 }
 
 type caseCfg struct {
@@ -177,6 +180,9 @@ func genConns(rng *rand.Rand, p *proxyCfg, thorough bool, passthrough bool) {
 	if swarm {
 		k = 16 + rng.Intn(21)
 	}
+	if limited && rng.Intn(3) == 0 {
+		p.StrictRate, p.Serial = true, true
+	}
 	scripts := []string{"duplex", "duplex", "upclose", "downclose", "abort", "half", "idle", "zero", "zero"}
 	p.Conns = nil
 	for i := 0; i < k; i++ {
@@ -201,6 +207,9 @@ func genConns(rng *rand.Rand, p *proxyCfg, thorough bool, passthrough bool) {
 		}
 		if limited && (c.Script == "abort" || c.Script == "zero" || c.Script == "idle") {
 			c.Script = []string{"duplex", "upclose", "downclose"}[rng.Intn(3)]
+		}
+		if p.StrictRate && c.Script != "upclose" && c.Script != "downclose" {
+			c.Script = []string{"upclose", "downclose"}[rng.Intn(2)]
 		}
 		pick := func() int64 {
 			n := sizesBase[rng.Intn(len(sizesBase))]
@@ -324,7 +333,7 @@ func (cc *caseCfg) signature() string {
 	var sb strings.Builder
 	fmt.Fprintf(&sb, "s%d|%v|%v", cc.Server, cc.A, cc.B)
 	for _, p := range cc.Proxies {
-		fmt.Fprintf(&sb, "|%s,%v,%v,%v,%v,%s%d,%s,%v", p.Kind, p.Enc, p.Comp, p.VEnc, p.VComp, p.Limit, p.LKB, p.PP, p.Greet)
+		fmt.Fprintf(&sb, "|%s,%v,%v,%v,%v,%s%d,%s,%v,%v", p.Kind, p.Enc, p.Comp, p.VEnc, p.VComp, p.Limit, p.LKB, p.PP, p.Greet, p.StrictRate)
 		var cs []string
 		for _, c := range p.Conns {
 			cs = append(cs, fmt.Sprintf("%s:%d:%d:%d:%d:%d:%d:%s:%v", c.Script, c.NUp, c.NDown, c.ClsUp, c.ClsDown, c.ChunkUp, c.ChunkDown, c.Closer, c.Early))
